@@ -3,7 +3,7 @@
 From Coq Require Import List Arith Bool PeanoNat.
 From Icv Require Import Route.RtModel Route.RtProofs Route.RtObs Route.RtOracleProofs Route.RtStepLemmas Route.RtLoad
      Route.RtNet Route.RtFamilies Route.RtSched Route.RtNetSound Route.RtNetProofs
-     Route.RtInv Route.RtChain Route.RtChainSafe Route.RtChainComplete.
+     Route.RtInv Route.RtChain Route.RtChainSafe Route.RtChainComplete Route.RtTree Route.RtTreeSafe Route.RtTreeComplete.
 Import ListNotations.
 
 (* ---- one relay step: ALL zone configurations, views, origins, iteration orders (unbounded) ---- *)
@@ -234,6 +234,52 @@ Example C11_unbounded_nonvacuous :
 Proof.
   split; [apply rt_chain_wf_b_spec; vm_compute; reflexivity|].
   vm_compute. repeat split.
+Qed.
+
+(* ================= UNBOUNDED: GLOBAL target zone on zone trees of ARBITRARY depth and width =================
+   rt_tree_wf c: acyclic forest (parents carry smaller numbers), global zones isolated (no parent, no children), at most
+   two endpoints per zone, every endpoint in one zone; any number of children per zone, any depth, arbitrary names.
+   G: any global zone.  Every link set, every originator, every per-node iteration order, every run. *)
+Theorem C11_tree_inv_step : forall c links G nord,
+  rt_tree_wf c -> rt_global c G = true -> rt_nord_ok c nord ->
+  forall st np st', rt_tree_inv c links st -> rt_sched_step rt_msg (rt_effect c links G nord) st np st' ->
+    rt_fresh np (snd st) = true /\ rt_tree_inv c links st' /\ rt_tree_measure c links st' < rt_tree_measure c links st.
+Proof. exact rt_tree_inv_step. Qed.
+Print Assumptions C11_tree_inv_step.
+
+Theorem C11_global_finite_once_unbounded : forall c links G s lz nord,
+  rt_tree_wf c -> rt_global c G = true -> rt_zone_of c s = Some lz -> rt_nord_ok c nord ->
+  forall k st', rt_sched_run rt_msg (rt_effect c links G nord) (rt_init c links G nord s lz) k st' ->
+    k < length (flat_map rt_zeps c) /\ k < rt_fuel c /\
+    (forall np st'', rt_sched_step rt_msg (rt_effect c links G nord) st' np st'' -> rt_fresh np (snd st') = true).
+Proof. exact rt_tree_finite_once_run. Qed.
+Print Assumptions C11_global_finite_once_unbounded.
+
+(* entitled zones of a global target: the originating zone and everything below it (rt_entitled_zones) *)
+Theorem C11_global_complete_unbounded : forall c links G nord s lz,
+  rt_tree_wf c -> rt_global c G = true -> rt_nord_ok c nord -> rt_zone_of c s = Some lz ->
+  forall k st', rt_sched_run rt_msg (rt_effect c links G nord) (rt_init c links G nord s lz) k st' ->
+    fst st' = [] -> rt_final_complete c links G lz (snd st') = true.
+Proof. exact rt_tree_complete. Qed.
+Print Assumptions C11_global_complete_unbounded.
+
+(* non-vacuity: the full binary tree of depth 3 with two endpoints everywhere plus a global zone - 31 directly related
+   endpoint pairs, 2^31 link sets, the member of rt_global_trees that the bounded sweep (<= 12 pairs) cannot reach -
+   satisfies rt_tree_wf and, fully connected, the premise; the exploration evaluated on it (originator = non-master
+   endpoint of the root zone: all 14 endpoints; originator in a leaf zone: its two endpoints) agrees *)
+Example C11_global_unbounded_nonvacuous :
+  let c := rt_mk_cfg (rt_tree_parents [2; 2]) [2; 2; 2; 2; 2; 2; 2] ++ [rt_gzone] in
+  let links := rt_related_pairs c in
+  rt_tree_wf c /\ rt_global c 7 = true /\ length links = 31 /\ In c rt_global_trees /\
+  rt_premise c links (rt_entitled_zones c 7 0) = true /\
+  rt_run_ok c links 7 2 (fun p => (length p =? 14) && forallb (fun e => rt_mem e p) (seq 1 14)) = true /\
+  rt_run_ok c links 7 8 (fun p => (length p =? 2) && forallb (fun e => rt_mem e p) [7; 8]) = true.
+Proof.
+  split; [apply rt_tree_wf_b_spec; vm_compute; reflexivity|].
+  split; [reflexivity|]. split; [reflexivity|].
+  split; [|vm_compute; repeat split].
+  unfold rt_global_trees. apply in_flat_map. exists [2; 2]. split; [vm_compute; tauto|].
+  apply in_map_iff. exists [2; 2; 2; 2; 2; 2; 2]. split; [reflexivity|]. vm_compute. tauto.
 Qed.
 
 (* non-vacuity: the 2/2/2 chain, fully connected, event about an object of the bottom zone originating at its
